@@ -105,6 +105,14 @@ func (n *decoratorNode) Call(s containerStore) (err error) {
 	}
 
 	n.state = decoratorOnStack
+	defer func() {
+		// A decorator that did not run to completion (missing
+		// dependencies, an error, a panic) is not done: it must be
+		// applied again the next time one of its keys is requested.
+		if n.state != decoratorCalled {
+			n.state = decoratorReady
+		}
+	}()
 
 	if err := shallowCheckDependencies(s, n.params); err != nil {
 		return errMissingDependencies{
